@@ -140,3 +140,18 @@ func VerifNextDSTAtMidnight() {
 	}
 	zzverif.Cover("next_dst_at_midnight_done")
 }
+
+// A transition that is NOT on the hour: Pacific/Chatham (UTC+12:45 / +13:45) changes at 02:45 standard time
+// (2012-09-30 02:45 -> 03:45: of the wall-clock hour 03:00-04:00 only the last quarter exists; 2012-04-01 03:45 -> 02:45:
+// the last quarter of hour 2 and the first three quarters of hour 3 happen twice).
+//
+//verif:harness prop=C04 name=next_dst_off_the_hour unwind=400 solver=z3-new
+func VerifNextDSTOffTheHour() {
+	if zzverif.Bool("autumn") {
+		// 2012-03-31 10:15 UTC = 2012-04-01 00:00 CHADT (+13:45); the change is at 14:00 UTC
+		vNextAroundTransition("Pacific/Chatham", time.Date(2012, 3, 31, 10, 15, 30, 0, time.UTC), "next_dst_off_the_hour_done")
+		return
+	}
+	// 2012-09-29 11:15 UTC = 2012-09-30 00:00 CHAST (+12:45); the change is at 14:00 UTC
+	vNextAroundTransition("Pacific/Chatham", time.Date(2012, 9, 29, 11, 15, 30, 0, time.UTC), "next_dst_off_the_hour_done")
+}
